@@ -129,6 +129,26 @@ def run(ctx, rep):
         rep.check(not app, 'W5', f'{name}:no-append-rename-seek', 'no append / rename / seek', f"{name} uses {[c['callee'] for c in app][:2]}", site)
     # informational
     rep.note('check_write_file skips writing when the new output is empty: an older non-empty file stays in place (not part of the decided clause).')
+    # W8: a successful run always reaches the writer — no early success exit ("nothing to do" shortcuts decided from
+    # time stamps, caches or the like) in generate_types: a run is responsible for giving every output file the content
+    # a run into an empty location would produce, and only the writer's byte comparison may decide to leave a file alone
+    gt = ctx.fnx('generate_types', file='cli/src/main.rs')
+    wg = [c for c in gt['calls'] if c.get('f') in ('write_generated', 'writer::write_generated')]
+    if not wg:
+        raise core.Incomplete('generate_types: call of write_generated not found')
+    early_ok = []
+    for r in gt.get('returns', []):
+        v = vt.unvar(r.get('v'))
+        is_ok = isinstance(v, dict) and ((v.get('k') == 'call' and str(v.get('f', '')).split('::')[-1] == 'Ok') or v.get('k') == 'ok')
+        if is_ok and r.get('line', 0) < wg[0].get('line', 0) and not r.get('via'):
+            early_ok.append(r)
+    conds = [fr for fr in wg[0]['guard'] if fr.get('k') == 'if' and not fr.get('early_exit')]
+    why8 = ''
+    if early_ok:
+        why8 = 'early `return Ok(..)` under `' + vt.show(next((fr['c'] for fr in early_ok[0]['guard'] if fr.get('k') == 'if'), None))[:70] + '`'
+    elif conds:
+        why8 = 'the call is conditional on `' + vt.show(conds[0]['c'])[:70] + '`'
+    rep.check(not early_ok and not conds, 'W8', 'generate_types:writer-always-reached', 'every successful run reaches write_generated', f"generate_types can finish successfully without calling write_generated ({why8}): outputs are left as an earlier run wrote them although the inputs (a deleted or moved source file, a changed option) would now produce something else", {'file': gt['file'], 'line': (early_ok[0].get('line') if early_ok else wg[0].get('line'))})
     # W7: determinism of the bytes
     sub = core.Report('C17', rep.tier)
     c06.run(ctx, sub)
